@@ -316,6 +316,11 @@ class qset(MutableSequenceSet[_T], abcs.Copyable):
         # is a duplicate.
         for v in filterfalse(leaving.__contains__, filter(self.__contains__, values)):
             raise Emsg.DuplicateValue(v)
+        # Any value repeated among the new values is a duplicate.
+        if len(set(values)) != len(values):
+            for v in values:
+                if values.count(v) > 1:
+                    raise Emsg.DuplicateValue(v)
         self._hook_check(values, leaving)
         self._set_.difference_update(leaving)
         try:
